@@ -42,6 +42,7 @@ DECIDING = {
     "layouts_inherited": "inherited or overriding declarations",
     "layouts_equal_instances": "distinct instances that compare equal",
     "wrong_class_rejections": "wrong-class events that must raise TypeError",
+    "subclass_events_dispatched": "events of a subclass of the declared class (must be accepted)",
     "unbound_uses": "class-level uses that must raise UnboundSignal",
     "owners_collected": "owners whose weak reference must die after the last strong reference is dropped",
     "copied_owners": "copy.copy() of an owner after its signals were bound",
@@ -203,6 +204,23 @@ async def scenario(case: dict[str, Any], out: dict[str, Any]) -> None:
             bad("channel-crosstalk" if foreign else "channel-lost",
                 f"subscriber of channel {k} received {len(got)} event(s); from other channels: {foreign}; own event delivered: "
                 f"{any(g is sent.get(k) for g in got)}")
+    # ---- an instance of a *subclass* of the declared event class is a right-class event: accepted and delivered
+    for k in list(bound)[:2]:
+        Sub = type("SubEvent", (attr_ev[k[1]],), {"__slots__": ()})
+        inc("subclass_events_dispatched")
+        sev = Sub(99)
+        try:
+            async with bound[k].stream_events(max_queue_size=5) as st:
+                bound[k].dispatch(sev)
+                got_sub = None
+                with anyio.move_on_after(5):
+                    got_sub = await st.__anext__()
+            if got_sub is not sev:
+                bad("channel-lost", f"an event of a subclass of the declared event class dispatched on {k} was not delivered")
+        except TypeError as e:
+            bad("channel-wrong-class", f"an event of a subclass of the declared event class was rejected on {k}: {describe_exc(e)}")
+        except Exception as e:
+            bad("channel-dispatch-raised", f"dispatching a subclass event on {k} raised {describe_exc(e)}")
     # ---- wrong class
     if len(evs) >= 2:
         for k in list(bound)[:3]:
